@@ -544,6 +544,11 @@ def panic_sites(B, R=None):
         if any(n in PANIC_FNS or n.startswith('core::panicking::panic_const::') for n in names):
             sites.append({'kind': 'panic', 'bb': bb, 'desc': 'explicit %s' % g.rsplit('::', 1)[1], 'need': ('unreachable',)})
             continue
+        # `Instant + Duration` / `SystemTime + Duration` / `Duration + Duration` panic on overflow (checked_add does not)
+        if any(n.endswith('ops::arith::Add::add') or n.endswith('ops::arith::Sub::sub') or n.endswith('ops::arith::AddAssign::add_assign') for n in names) \
+                and any(('time::Instant' in str(x) or 'time::Duration' in str(x) or 'SystemTime' in str(x)) for x in (t.get('aty') or [])):
+            sites.append({'kind': 'time-arith', 'bb': bb, 'desc': '%s(%s)' % (g.rsplit('::', 1)[1], ','.join(str(x).rsplit('::', 1)[-1] for x in (t.get('aty') or []))), 'need': ('time-arith', t)})
+            continue
         for n in names:
             if n in PARTIAL and PARTIAL[n] is not None:
                 sites.append({'kind': 'partial', 'bb': bb, 'desc': '%s(%s)' % (n.rsplit('::', 1)[1], ','.join(describe(B, canon(B, a)) for a in t['args'][:2])),
@@ -665,6 +670,13 @@ def discharge(B, R, site):
                 # slice -> array conversion of a slice whose length is fixed by construction
                 return 'undecided', 'conversion result unwrapped'
         return 'bad', 'unwrap/expect on a value that is not shown to be Some/Ok'
+    if k == 'time-arith':
+        t = need[1]
+        # a constant right-hand side (a few seconds) cannot overflow a clock reading in practice; a caller-supplied duration can
+        o = B.origin(t['args'][1]) if len(t['args']) > 1 else ('unknown',)
+        if o[0] == 'const' or (o[0] == 'call' and str(o[1]).endswith('Duration::from_secs') or o[0] == 'call' and str(o[1]).endswith('Duration::from_millis')):
+            return 'ok', 'constant duration'
+        return 'bad', 'time arithmetic with a caller-supplied operand panics on overflow (Duration::MAX + now); use checked_add'
     if k == 'unknown':
         return 'undecided', 'obligation shape not recognised (%s)' % (need[1],)
     if k == 'unreachable':
